@@ -91,7 +91,11 @@ def gen(rng, tier):
         width = "".join(ch for ch in t if ch.isdigit())
         name = t[:len(t) - len(width)]
         extra = [name + sep + width for sep in ("+", "-", " ", "_", ".", "0", "+0", "x", "\u200b")] if width else []
-        for w in perturb(t) + extra:
+        # names other languages / tools use for the same type (Solidity's bare `uint` = uint256, `int`, `byte` = bytes1, ABI
+        # `fixed`, `address payable`, `bytes32[1]`, `str`, `String`, `text`): an alias is a different type name
+        extra += [name, name + "s", {"uint": "int", "int": "uint"}.get(name, name + "1"), "uint", "int", "byte", "bytes", "fixed", "ufixed", "address payable", "payable",
+                  "contract", "str", "String", "text", "char[]", "bytes32[1]", "uint256[1]", "uint256[]", "u256", "U256", "uint 256", "uint256_t", "number", "bigint", "hash", "H256"]
+        for w in perturb(t) + [e for e in extra if e != t]:
             add([(a, (w if a == n else b)) for a, b in STD], "perturbed-type")
             add([(n, w)], "perturbed-type")
     # look-alike member names (a standard name padded with white space, in another case, with an invisible or full-width
